@@ -4,7 +4,21 @@ the inputs carry one symbolic Boolean per way of being wrong (missing, unit-less
 variable, non-Normal), so a deleted or weakened check makes the corresponding clause refutable."""
 import z3
 
-from jvc.lib import LIB as _L, model
+from jvc.lib import LIB as _L
+
+_LOCAL = {}
+
+
+def model(*names, doc=""):
+    """library contracts of THIS module only (applied through LIB to C18's contracts and to their clones, `home="c18"`): they override builtins such
+    as dict / Unit.is_equivalent, so they must not be registered in the global table other properties use"""
+    def deco(f):
+        for n in names:
+            _LOCAL[n] = f
+        return f
+    return deco
+
+
 from jvc.symexec import Contract, str_const, to_z3
 from jvc.values import Arr, NameRef, Obj, Opaque, PyDict, PyList, Unsupported, fresh_arr, fresh_int, fresh_name, PyObj
 
@@ -328,3 +342,5 @@ CALLEES.update({"thejoker.data.RVData": _ctor, "thejoker.data.RVData.__init__": 
 from . import c08 as _C08H   # noqa: E402
 from .chain import clone as _clone   # noqa: E402
 CONTRACTS += [_clone(_c, home="c08") for _c in _C08H.make_helper]
+
+LIB.update({k: v for k, v in _LOCAL.items() if k not in LIB})
